@@ -45,7 +45,13 @@ fn run(input: RunInput) -> ScenFuture {
         let n_calls = w.param("calls", 1, if w.tier == Tier::Quick { 7 } else { 20 }) as usize;
         let spread_us = w.param("spread_us", 0, 60_000) as u64;
         let mut cfg = base_config(6_000, Some(1_500));
-        cfg.connect_timeout_ms = Some(w.param("connect_timeout_ms", 800, 3_000) as u64);
+        let connect_timeout_ms = w.param("connect_timeout_ms", 800, 3_000) as u64;
+        cfg.connect_timeout_ms = Some(connect_timeout_ms);
+        // the path to a target may be dead for the first part of a dial (more than half of the
+        // connect timeout) and work afterwards: whatever the dial does about its first flights
+        // going unanswered, whoever answers in the end is checked like at the start
+        let blackouts = w.flag("path_dead_during_the_first_part_of_a_dial", 0.25);
+        let mut r_black = w.rng("wl:blackouts");
         let c_svc = Svc::echo(&w);
         let c_handle = c_svc.handle();
         let c = Arc::new(w.start_node(w.spec(1, cfg.clone()), c_svc).unwrap());
@@ -141,16 +147,45 @@ fn run(input: RunInput) -> ScenFuture {
             let expect = if t == Target::Own && r.gen_bool(0.4) { Some(c.peer_id) } else { expect };
             // keep O unconnected from C in runs that use it as a mismatch-only target
             let expect = if t == Target::O && !o_plain_ok { Some(e_id) } else { expect };
+            // an expectation that is *almost* the identity that lives there: one byte off, anywhere
+            let expect = if r.gen_bool(0.15) {
+                let real = match t { Target::E => Some(e_id), Target::O => Some(o.peer_id), Target::Chain => Some(m_id), _ => None };
+                match real {
+                    Some(mut p) => {
+                        p.0[r.gen_range(0..32)] ^= 1 << r.gen_range(0..8);
+                        w.name_peer(p, "near-miss");
+                        w.probe("expectation-one-bit-off");
+                        Some(p)
+                    }
+                    None => expect,
+                }
+            } else {
+                expect
+            };
             plan.push((t, expect, if spread_us == 0 { 0 } else { r.gen_range(0..=spread_us) }));
         }
         let mut retired_nodes = Vec::new();
         let results: Arc<Mutex<Vec<(usize, Result<PeerId, String>, bool)>>> = Default::default();
         let mut futs = Vec::new();
+        let mut blacked_out: std::collections::BTreeSet<usize> = Default::default();
         for (i, (t, expect, off)) in plan.iter().copied().enumerate() {
             let (c2, w2, results) = (c.clone(), w.clone(), results.clone());
             let a = addr_of(t);
+            let blackout_ms = if blackouts && t != Target::Nobody && t != Target::Own && r_black.gen_bool(0.4) { connect_timeout_ms * r_black.gen_range(50..90) / 100 } else { 0 };
+            if blackout_ms > 0 {
+                blacked_out.insert(i);
+            }
             futs.push(async move {
                 sleep_us(off).await;
+                if blackout_ms > 0 {
+                    w2.fabric.partition(c2.addr, a);
+                    let (w3, ca) = (w2.clone(), c2.addr);
+                    tokio::spawn(async move {
+                        sleep_ms(blackout_ms).await;
+                        w3.fabric.heal(ca, a);
+                    });
+                    w2.probe("dial-with-a-dead-path-at-first");
+                }
                 let res = match expect {
                     Some(p) => c2.net.connect_with_peer_id(a, p).await,
                     None => c2.net.connect(a).await,
@@ -191,7 +226,10 @@ fn run(input: RunInput) -> ScenFuture {
                     w.check(announced_c.contains(p) || *listed_now, "dial-ok-but-never-listed", key.clone(), || format!("call {i} returned Ok({}) but the caller never listed or announced that peer before the return", w.pname(p)));
                 }
                 Err(e) => {
-                    if !lossy {
+                    // (a dial whose path was dead at first - or that shared its target with such a
+                    // dial - may legitimately run into its connect timeout)
+                    let shared_blackout = blacked_out.iter().any(|j| plan[*j].0 == t);
+                    if !lossy && !shared_blackout {
                         // fault-free: a dial to the right party with a matching (or no) expectation succeeds
                         // (whether a chain of several certificates is acceptable at all is not this
                         // property's business: no success is demanded there)
